@@ -75,6 +75,22 @@ def extractArchive (pat : String) (g : String → Bool) (stem : String) (listing
   let (f, rm) := matching pat g stem listing
   if f.isEmpty then [] else extract f rm ms
 
+/-! ### a second request into the same directory -/
+
+/-- the pre-pass of `extract_to_dir`: entries whose (renamed) target exists already inside the directory are reported as
+    extracted and leave the files filter (names leading outside are never taken for existing - fix 9584f8d) -/
+def preFilter (exists_ : String → Bool) (rm : Option (String × String)) (filter : List String) : List String × List String :=
+  (filter.filterMap fun f => let n := renamed rm f; if exists_ n && staysInside (comps n) then some n else none,
+   filter.filter fun f => let n := renamed rm f; !(exists_ n && staysInside (comps n)))
+
+/-- `extract_archives` into a directory that already holds `existing` (resolved relative paths of files) -/
+def extractArchiveInto (existsIn : String → Bool) (pat : String) (g : String → Bool) (stem : String) (listing : List String)
+    (ms : List Member) : List String × List (String × List UInt8) :=
+  let (f, rm) := matching pat g stem listing
+  if f.isEmpty then ([], []) else
+  let (pre, f') := preFilter existsIn rm f
+  (pre, extract f' rm ms)
+
 namespace Spec
 /-- C20: exactly the file members that match the pattern and whose names do not lead outside the directory -/
 def selected (pat : String) (g : String → Bool) (m : Member) : Bool :=
